@@ -108,8 +108,16 @@ def setup(ctx):
 
 def workload(ctx):
     rng = ctx.rng(1)
+    prevc = None
     for i in range(ctx.n(1500, 40000)):
         c, cs = gen.cell(rng, gen.CELL_STRATA[i % len(gen.CELL_STRATA)])
+        if prevc is not None and rng.random() < 0.3:
+            # histories: the previous cell again, or a cell a refinement step away from it
+            d = 0.0 if rng.random() < 0.4 else 10 ** rng.uniform(-8, -4)
+            c, cs = [x * (1 + d) for x in prevc], "scan"
+            if oracle.gram_det_angular(c) < 0.02 or max(c[3:]) >= 175:
+                c, cs = gen.cell(rng, "generic")
+        prevc = c
         U, rs, _ = gen.rotation(rng, gen.ROT_STRATA[(i // 7) % len(gen.ROT_STRATA)])
         kind = i % 10
         eps = rng.uniform(-0.1, 0.1, 6)
@@ -118,6 +126,8 @@ def workload(ctx):
         elif kind == 1:
             j = int(rng.integers(6))
             eps = np.array([eps[j] if n == j else 0.0 for n in range(6)])
+        elif kind == 2:
+            eps = rng.choice([-1, 1], 6) * 10 ** rng.uniform(-9, -3, 6)       # realistic elastic strains
         yield "strain", {"cell": c, "cell_stratum": cs, "eps": [float(x) for x in eps], "U": U.tolist(), "rot_stratum": rs}
 
 
